@@ -182,7 +182,8 @@ pub fn run(ctx: &mut Ctx) {
     if ctx.family_active("match") {
         // (41 included: a record holding OPT data in the answer section is a record like any other for the matching functions)
         let mut codes: Vec<u16> = TYPED_CODES.to_vec();
-        codes.extend_from_slice(&[10, 0, 19, 99, 251, 255, 256, 65535]);
+        // (251..255 are question-type codes: a record that carries one of them as its type code is just a record of an unknown type)
+        codes.extend_from_slice(&[10, 0, 19, 99, 251, 252, 253, 254, 255, 256, 65535]);
         let mut qtypes: Vec<u16> = TYPED_CODES.to_vec();
         qtypes.extend_from_slice(&[10, 255, 253]);
         let reps = if ctx.slow_tool { 1 } else { ctx.tier.pick(30u64, 600u64) };
@@ -232,7 +233,7 @@ pub fn run(ctx: &mut Ctx) {
                         }
                         for qt in &qtypes {
                             let q = QTYPE::try_from(*qt).map_err(|e| format!("{:?}", e))?;
-                            let want = *qt == 255 || *qt == *code || (*qt == 253 && matches!(*code, 7 | 8 | 9));
+                            let want = *qt == 255 || (*qt == *code && !(251..=255).contains(qt)) || (*qt == 253 && matches!(*code, 7 | 8 | 9));
                             if rr.match_qtype(q) != want {
                                 probs.push(format!("match_qtype:{}:{}", route, if *qt == 255 { "ANY" } else if *qt == 253 { "MAILB" } else if *qt == *code { "own-type" } else { "other-type" }));
                             }
